@@ -236,7 +236,12 @@ Definition closer_step (s : sys) : option sys :=
   match cp s with
   | CStart => if wpend s || wheld s then None
               else Some (set_c s (if closed s then CDone 2 else CSend))
-  | CSend => Some (set_c s (if kind0 s then CLogoutWait else CLockReq))
+  | CSend =>
+      if kind0 s && conn_done s
+      then (* the logout's SendPackage finds the connection context done: error, no wait for an answer *)
+           Some (mkS (closed s) (pq s) (pcap s) (rd s) (wpend s) (wheld s) (registered s) (cerr s) (ccap s) (conn_done s) (tclosed s) (tfail s)
+                     (rp s) (incoming s) CLockReq (kind0 s) (conn_close s) (reply s) true)
+      else Some (set_c s (if kind0 s then CLogoutWait else CLockReq))
   | CLogoutWait =>
       if wpend s || wheld s then None else
       match pq s with
